@@ -129,4 +129,7 @@ func genC22(g *gen) {
 	}
 	g.line("Definition gen_expected_set_only_for_specified_request_address : bool := %s.", coqBool(expectedCond))
 	g.line("Definition gen_association_gets_control_connection : bool := %s.", coqBool(conn))
+
+	// the address bytes that become ExpectedClientAddr.IP are allocated by readRequest for this request alone
+	g.line("Definition gen_request_address_bytes_are_not_shared : bool := %s.", coqBool(freshBuffers(findFunc(hf, "Handler", "readRequest"), false)))
 }
